@@ -603,10 +603,10 @@ impl Prop for C13 {
     fn lanes(tier: Tier) -> Vec<Lane> {
         vec![
             Lane::new("main", tier.pick(240_000, 4_500_000))
-                .cap(tier.pick(90, 600))
+                .cap(tier.pick(180, 1200))
                 .floor(tier.pick(40_000, 800_000)),
             Lane::new("robustness", tier.pick(80_000, 1_500_000))
-                .cap(tier.pick(60, 400))
+                .cap(tier.pick(150, 900))
                 .floor(tier.pick(12_000, 250_000)),
         ]
     }
